@@ -50,6 +50,7 @@ CLAIM = dict(
 THEOREMS = ["nnid_range", "fill_wellformed", "fill_loads_exactly", "attempts_bounded",
             "load_sound", "load_error_exact", "resend_exact",
             "count_shortcut_counterexample", "readback_counterexample", "block_count_overflow_example"]
+THEOREMS += ['gen_get_next_nn_id']   # translator tie: generated function bodies = model (Props/C09Gen.lean)
 
 RULE = ("cases = (machine of 1-40 chips: rectangles at several origins incl. aligned 4x4/8x8 blocks, scattered chips up to "
         "coordinate 255; 1-3 binaries of length around multiples of the buffer (buffer in {4,8,16,64,128,256}); core sets "
